@@ -180,6 +180,24 @@ theorem mergeLoop_kept_disc (rs : List Range) : ∀ (ns : Range), Range.Valid ns
           (((merge_none_iff ns k hns hit).1 hm).symm) hp.1
       · exact ih ns hns hrest hp.2 k hk
 
+/-- the final new section contains the inserted range -/
+theorem mergeLoop_bounds (rs : List Range) : ∀ (ns : Range), Range.Valid ns →
+    (∀ r ∈ rs, Range.Valid r) →
+    (mergeLoop ns rs).1.start ≤ ns.start ∧ ns.stop ≤ (mergeLoop ns rs).1.stop := by
+  induction rs with
+  | nil => intro ns _ _; simp [mergeLoop]
+  | cons it rest ih =>
+    intro ns hns hrs
+    have hit : Range.Valid it := hrs it (by simp)
+    have hrest : ∀ r ∈ rest, Range.Valid r := fun r hr => hrs r (by simp [hr])
+    cases hm : ns.merge it with
+    | some m =>
+      rw [mergeLoop_cons_some hm]
+      have := ih m (merge_valid hns hit hm) hrest
+      have := merge_some hns hit hm
+      omega
+    | none => rw [mergeLoop_cons_none hm]; exact ih ns hns hrest
+
 theorem extentR_append (a b : List Range) : extentR (a ++ b) = max (extentR a) (extentR b) := by
   induction a with
   | nil => simp [extentR]
